@@ -62,19 +62,24 @@ end generated
 section entry
 variable {α : Type} [Ops α]
 
-/-- every implementation refuses (`ValueError`) exactly the inputs that are not a vector of at least
-two points — 0-d, 2-d (also 1×n and n×1), empty, one point — whatever `getoffsets` is; -/
+/-- every implementation refuses with `ValueError` exactly the inputs that are not a vector of at
+least two points — 0-d, 2-d (also 1×n and n×1), empty, one point — whatever `getoffsets` is (the C
+wrapper only gets that far for a dtype that casts safely to float64); -/
 theorem entry_refuses_iff (i : Impl) (nd : Nd α) (hw : NdWF nd) (g : Option Bool) :
-    implEntry i nd g = .error .valueError ↔ ¬ (nd.ndim = 1 ∧ 2 ≤ nd.data.length) := by
+    implEntry i nd g = .error .valueError ↔
+      (i = .c_rain → nd.safe = true) ∧ ¬ (nd.ndim = 1 ∧ 2 ≤ nd.data.length) := by
   have hpy := atleast_1d_wf nd hw
   cases i with
   | c_rain =>
       simp only [implEntry, cEntry]
-      by_cases h1 : nd.ndim = 1
-      · by_cases h2 : nd.data.length < 2
-        · simp [h1, h2]
-        · simp [h1, h2]
-      · simp [h1]
+      cases hs : nd.safe with
+      | false => simp
+      | true =>
+          by_cases h1 : nd.ndim = 1
+          · by_cases h2 : nd.data.length < 2
+            · simp [h1, h2]
+            · simp [h1, h2]
+          · simp [h1]
   | py_rain =>
       simp only [implEntry, pyEntry]
       rw [← hpy]
@@ -84,16 +89,30 @@ theorem entry_refuses_iff (i : Impl) (nd : Nd α) (hw : NdWF nd) (g : Option Boo
         · simp [h1, h2]
       · simp [h1]
 
-/-- … and no entry point ever fails in another way. -/
-theorem entry_never_internal (i : Impl) (nd : Nd α) (g : Option Bool) :
-    implEntry i nd g ≠ .error .internal := by
-  cases i <;> simp only [implEntry, cEntry, pyEntry] <;> split <;> (try split) <;> simp
+/-- … the only other refusal is the C wrapper's `TypeError` for a dtype that does not cast safely
+(longdouble, complex, object), and no entry point ever fails internally. -/
+theorem entry_other_errors (i : Impl) (nd : Nd α) (g : Option Bool) :
+    implEntry i nd g ≠ .error .internal ∧
+      (implEntry i nd g = .error .typeError ↔ i = .c_rain ∧ nd.safe = false) := by
+  cases i with
+  | c_rain =>
+      simp only [implEntry, cEntry]
+      cases hs : nd.safe
+      · simp
+      · simp only [Bool.not_true, Bool.false_eq_true, if_false]
+        split <;> (try split) <;> simp
+  | py_rain =>
+      simp only [implEntry, pyEntry]
+      split <;> (try split) <;> simp
 
-/-- the two implementations are the same function of `(peaks, getoffsets)` -/
-theorem entry_impls_agree (nd : Nd α) (hw : NdWF nd) (g : Option Bool) :
+/-- FULL STATEMENT (false as it stands, see `entry_impls_agree_needs_safe`): the two implementations
+are the same function of `(peaks, getoffsets)`:
+`∀ nd g, NdWF nd → implEntry .py_rain nd g = implEntry .c_rain nd g`.
+Proved here for arrays whose dtype casts safely to float64 (`nd.safe`). -/
+theorem entry_impls_agree_partial (nd : Nd α) (hw : NdWF nd) (hs : nd.safe = true) (g : Option Bool) :
     implEntry .py_rain nd g = implEntry .c_rain nd g := by
   have hpy := atleast_1d_wf nd hw
-  simp only [implEntry, cEntry, pyEntry, atleast_1d_data]
+  simp only [implEntry, cEntry, pyEntry, atleast_1d_data, hs]
   by_cases h1 : nd.ndim = 1 ∧ 2 ≤ nd.data.length
   · have h2 := hpy.mpr h1
     rw [atleast_1d_data] at h2
@@ -110,6 +129,14 @@ theorem entry_impls_agree (nd : Nd α) (hw : NdWF nd) (g : Option Bool) :
       · simp only [h, if_true]; have := fun h' => h2 ⟨h, h'⟩; omega
       · simp [h]
     simp [e1, e2]
+
+/-- the hypothesis is necessary: for a vector of a dtype that does not cast safely (`np.longdouble`)
+py_rain returns a table and c_rain raises `TypeError` -/
+theorem entry_impls_agree_needs_safe :
+    ∃ nd : Nd α, NdWF nd ∧ ∀ g, implEntry .py_rain nd g ≠ implEntry .c_rain nd g := by
+  refine ⟨⟨[2], [Ops.c1, Ops.c05], false⟩, by simp [NdWF], ?_⟩
+  intro g
+  simp [implEntry, cEntry, pyEntry, Nd.atleast_1d, Nd.ndim]
 
 /-- shape of an accepted call's result: `L - 1 - fullcycles` rows of three numbers; with
 `getoffsets` also as many rows of two integers, without it no offsets at all -/
@@ -138,18 +165,20 @@ omit [Ops α] in
 theorem relabel_values (o : Out α) : (relabel o).values = o.values := by
   cases o <;> rfl
 
-/-- the wrapper returns exactly the implementation's numbers, for both `use_pandas` settings and
-whichever implementation was imported; with `use_pandas` the packaging is DataFrames with columns
+/-- the wrapper returns exactly the numbers of the implementation it imported (of either
+implementation when the dtype casts safely), for both `use_pandas` settings; with `use_pandas` the packaging is DataFrames with columns
 amp/mean/count and start/stop, without it the implementation's own arrays -/
 theorem wrapper_is_relabel (available : Impl → Bool) (i : Impl) (nd : Nd α) (hw : NdWF nd)
-    (g up : Option Bool) :
+    (hs : i = imported available ∨ nd.safe = true) (g up : Option Bool) :
     wrapper available nd g up =
         (implEntry i nd (some (g.getD false))).map (fun o => if up.getD true then relabel o else o) ∧
       (wrapper available nd g up).map Out.values = (implEntry i nd g).map Out.values := by
   have hi : ∀ g', implEntry (imported available) nd g' = implEntry i nd g' := by
     intro g'
-    have := entry_impls_agree nd hw g'
-    cases imported available <;> cases i <;> simp [this]
+    rcases hs with rfl | hs
+    · rfl
+    · have := entry_impls_agree_partial nd hw hs g'
+      cases imported available <;> cases i <;> simp [this]
   have hg : implEntry i nd g = implEntry i nd (some (g.getD false)) := by
     cases g <;> cases i <;> rfl
   unfold wrapper
@@ -218,9 +247,9 @@ example : letI := intOps
 
 -- the translated entry point refuses a 1×3 matrix and a scalar, accepts a vector
 example : letI := intOps
-    observe (PyYetiVerif.Generated.PyRain.rainflow 3 (⟨[1, 3], [1, 2, 0]⟩ : Nd Int) true) = .error .valueError := by
+    observe (PyYetiVerif.Generated.PyRain.rainflow 3 ({ shape := [1, 3], data := [1, 2, 0] } : Nd Int) true) = .error .valueError := by
   rfl
-example : (⟨[], [7]⟩ : Nd Int).atleast_1d.shape = [1] := by decide
-example : NdWF (⟨[1, 3], [1, 2, 0]⟩ : Nd Int) := by simp [NdWF]
+example : ({ shape := [], data := [7] } : Nd Int).atleast_1d.shape = [1] := by decide
+example : NdWF ({ shape := [1, 3], data := [1, 2, 0] } : Nd Int) := by simp [NdWF]
 
 end PyYetiVerif.C05
